@@ -909,6 +909,8 @@ func (env *SpecEnv) call(x SCall) Val {
 		return Val{S: sel(H, env.eng.chanID(key)), Sort: sInt}
 	case "top":
 		return Val{S: env.st.top, Sort: sInt}
+	case "envfailed":
+		return Val{S: env.vc.envFailed(), Sort: sBool}
 	case "mkstruct":
 		// mkstruct(pkg.Type, field values in declaration order)
 		ts := specExprString(x.Args[0])
